@@ -15,8 +15,10 @@ vars == << c, d >>
 
 Base == [ n : {7, 8}, shape : {"ok"}, order : {"sorted"}, dup : {"none"}, action : {"ok"},
           psig : {"good"}, csig : {"good"}, approval : {"good"},
-          newc : {0, 1, 7}, chg : {0, 1, 2}, paid : {"lt", "eq", "gt"}, account : {"same", "other"}, extraPrev : {0, 1} ]
+          newc : {0, 1, 7}, chg : {0, 1, 2}, paid : {"lt", "eq", "gt"}, account : {"same", "other"}, extraPrev : {0, 1},
+          keyvar : {"spend", "view"} ]
 Feasible(k) == /\ k.newc + k.chg <= k.n
+               /\ k.keyvar = "view" => k.newc + k.chg > 0
                /\ k.paid = "lt" => Required(k) > 0
 
 Defects(k) ==
